@@ -57,3 +57,125 @@ def codec_crosscheck(case_lines, model_kvs, limit=40):
     rc, out = build.run(['coqc', '-noglob', '-Q', os.path.join(build.COQ, 'theories'), 'RS', '-o',
                          os.path.join(d, 'XCheck.vo'), path], cwd=d, timeout=900, check=False)
     return {'cases': n, 'ok': rc == 0, 'log': out[-1500:] if rc != 0 else ''}
+
+
+# ---------------- tree cases ----------------
+class _Toks:
+    def __init__(self, toks): self.t = toks; self.i = 0
+    def next(self):
+        x = self.t[self.i]; self.i += 1; return x
+    def peek(self): return self.t[self.i] if self.i < len(self.t) else None
+
+def coq_opt_text(h):
+    return 'None' if h == '-' else '(Some %s)' % coq_text(h)
+
+def coq_text_list(s):
+    if s == '_':
+        return '[]'
+    return coq_list([coq_text(x) for x in s.split(',')], lambda x: x)
+
+def coq_smap_fields(mp, srcs, cts, nms, file, root, dbg):
+    return '(mkSmap %s %s %s %s %s %s %s)' % (coq_opt_text(file), coq_text(mp), coq_text_list(srcs), coq_text_list(cts),
+                                              coq_text_list(nms), coq_opt_text(root), coq_opt_text(dbg))
+
+def _smap(t):
+    assert t.next() == 'M'
+    return coq_smap_fields(*[t.next() for _ in range(7)])
+
+def coq_src(t):
+    """independent parser of the case grammar (see ocaml/driver.ml parse_src) producing a Gallina term"""
+    k = t.next()
+    if k == 'raws': return '(SRaw false %s)' % coq_text(t.next())
+    if k == 'rawb': return '(SRaw true %s)' % coq_text(t.next())
+    if k == 'rstr': return '(SRawString %s)' % coq_text(t.next())
+    if k == 'rbuf': return '(SRawBuffer %s)' % coq_text(t.next())
+    if k == 'orig':
+        v = t.next(); n = t.next()
+        return '(SOriginal %s %s)' % (coq_text(v), coq_text(n))
+    if k in ('sms', 'usr'):
+        v = t.next(); n = t.next(); m = _smap(t); o = t.next()
+        inner = 'None'
+        if t.peek() == '-':
+            t.next()
+        else:
+            inner = '(Some %s)' % _smap(t)
+        rm = t.next()
+        return '(SMapped %s %s %s %s %s %s)' % (coq_text(v), coq_text(n), m, coq_opt_text(o), inner, 'true' if rm == '1' else 'false')
+    if k in ('concat', 'concata'):
+        n = int(t.next()); items = []
+        for _ in range(n):
+            ty = t.next(); c = coq_src(t)
+            items.append('(IBoxed %s)' % c if ty == 'b' else '(match %s with SConcat cs => ITyped cs | x => IBoxed x end)' % c)
+        return '(concat_new %s)' % coq_list(items, lambda x: x)
+    if k == 'repl':
+        inner = coq_src(t); n = int(t.next()); rs = []
+        for _ in range(n):
+            st, en, c, nm, enf = [t.next() for _ in range(5)]
+            rs.append('(mkRepl %s %s %s %s %s)' % (st, en, coq_text(c), coq_opt_text(nm), enf))
+        return '(SReplace %s %s)' % (inner, coq_list(rs, lambda x: x))
+    if k == 'cached':
+        cid = t.next(); inner = coq_src(t)
+        return '(SCached %s %s)' % (cid, inner)
+    raise ValueError(k)
+
+_WOP = {'m1': '(WMap true)', 'm0': '(WMap false)', 's10': '(WStream true false)', 's00': '(WStream false false)',
+        's11': '(WStream true true)', 's01': '(WStream false true)'}
+
+def coq_event(e):
+    f = e.split(':')
+    if f[0] == 'S':
+        return '(ESource %s %s %s)' % (f[1], coq_text(f[2]), coq_opt_text(f[3]))
+    if f[0] == 'N':
+        return '(EName %s %s)' % (f[1], coq_text(f[2]))
+    return '(EChunk %s %s)' % (coq_opt_text(f[1]), coq_mapping_fields(*f[2:8]))
+
+def coq_events(s):
+    return '[]' if s == '_' else coq_list([coq_event(e) for e in s.split('|')], lambda x: x)
+
+def coq_optmap(s):
+    if s == '-':
+        return 'None'
+    return '(Some %s)' % coq_smap_fields(*s.split(';'))
+
+def tree_crosscheck(case_lines, model_kvs, limit=25):
+    """'id tree <src> <nwarm> (<cache id> <op>)*' : source(), the four streams with their end info and both
+    maps as printed by the extracted OCaml must be what the kernel computes for the independently
+    translated term"""
+    body = ['From RS Require Import Base.Prelude Base.Text Codec.Vlq Stream.Types Stream.Tree Api.ApiTree.',
+            'Open Scope N_scope.']
+    n = 0
+    for line in case_lines:
+        toks = [x for x in line.split(' ') if x != '']
+        if len(toks) < 3 or toks[1] != 'tree' or len(line) > 700:
+            continue
+        kv = model_kvs.get(toks[0])
+        if not kv or 'MODELERR' in kv or any(k not in kv for k in ('src', 'e10', 'g10', 'm1', 'm0')):
+            continue
+        try:
+            t = _Toks(toks[2:])
+            term = coq_src(t)
+            ws = []
+            if t.peek() is not None:
+                for _ in range(int(t.next())):
+                    cid = t.next(); op = t.next()
+                    ws.append('(%s, %s)' % (cid, _WOP[op]))
+            streams = []
+            for tag in ('10', '00', '11', '01'):
+                gl, gc = kv['g' + tag].split(':')
+                streams.append('(%s, (%s, %s))' % (coq_events(kv['e' + tag]), gl, gc))
+            exp = '(%s, %s, %s)' % (coq_text(kv['src']), coq_list(streams, lambda x: x),
+                                    coq_list([coq_optmap(kv['m1']), coq_optmap(kv['m0'])], lambda x: x))
+        except Exception:
+            continue
+        body.append('Example x%d : (let o := api_tree %s %s in (to_source o, to_streams o, to_maps o)) = %s.\n'
+                    'Proof. vm_compute. reflexivity. Qed.' % (n, term, coq_list(ws, lambda x: x), exp))
+        n += 1
+        if n >= limit:
+            break
+    d = os.path.join(build.BUILD, 'xcheck')
+    os.makedirs(d, exist_ok=True)
+    path = os.path.join(d, 'XCheckTree.v')
+    open(path, 'w').write('\n'.join(body) + '\n')
+    rc, out = build.run(['coqc', '-noglob', '-Q', os.path.join(build.COQ, 'theories'), 'RS', '-o',
+                         os.path.join(d, 'XCheckTree.vo'), path], cwd=d, timeout=1200, check=False)
+    return {'cases': n, 'ok': rc == 0, 'log': out[-1500:] if rc != 0 else ''}
